@@ -65,6 +65,9 @@ Configs ==
           alwaysRet : BOOLEAN, maxit : MaxIts, supGood : BOOLEAN,
           supZero : BOOLEAN] :
      /\ c.mg \/ c.ssl # "none"
+     \* maxit = 0: SciPy's bicgstab / cgs return at once (info = 0); gcrotmk
+     \* raises inside SciPy, multigrid alone ignores it - not modelled
+     /\ c.maxit = 0 => c.ssl \in {"bicgstab", "cgs"}
      /\ ~c.given => (c.dtypeOk /\ ~c.alwaysRet /\ ~c.supGood /\ ~c.supZero)
      /\ c.supZero => (c.supGood <=> c.zeroSrc)   \* A 0 = 0: good iff b = 0
      /\ (c.zeroSrc /\ ~c.supZero) => ~c.supGood}  \* A x = 0 only for x = 0
@@ -206,8 +209,11 @@ EnvOK(est, cls) == ("EstimateSound" \in EnvAssume /\ est) => cls = "ok"
 KReturn(xr, i) ==
   /\ objs' = [objs EXCEPT ![fobj] = xr]
   /\ msg' = IF i < 0 THEN (IF msg = "" THEN "Error in solver" ELSE msg)
-            ELSE IF i > 0 THEN "MAX. ITERATION REACHED, NOT CONVERGED"
-            ELSE "CONVERGED"
+            ELSE IF i > 0 \/ (xr.cls # "ok" /\ "TrustSciPyCode" \notin Deviations)
+                 THEN "MAX. ITERATION REACHED, NOT CONVERGED"
+            ELSE "CONVERGED"        \* SciPy says 0 AND the recomputed error is
+                                    \* below tolerance (fix 9ada188); deviation
+                                    \* TrustSciPyCode: the code before the fix
   /\ l2' = IF "KrylovStaleL2" \in Deviations THEN l2
            ELSE [src |-> <<fobj, xr.ver>>, cls |-> xr.cls]
   /\ pc' = "finish" /\ kpc' = "off"
@@ -215,7 +221,7 @@ KReturn(xr, i) ==
 (* bicgstab / cgs: top of the loop: exhausted, done?, breakdown, or go on *)
 KTop ==
   /\ pc = "kry" /\ kpc = "top"
-  /\ \/ /\ kit = cfg.maxit /\ KReturn(x, 1)
+  /\ \/ /\ kit = cfg.maxit /\ KReturn(x, cfg.maxit)   \* `return x, maxiter`
      \/ /\ kit < cfg.maxit /\ estOk /\ KReturn(x, 0)
      \/ /\ kit < cfg.maxit /\ ~estOk
         /\ ("NoBreakdownAfterInnerConverged" \in EnvAssume) => ~innerConv
